@@ -150,6 +150,54 @@ MUTANTS = [
       "                grid_manager_verifier=lambda: gm_verifier(),\n", None),
     M("benign-asked-at-construction-for-logging-only", SC, INIT_H,
       "        self._permitted_when_announced = None if grid_manager_verifier is None else grid_manager_verifier()\n" + INIT_H, None),
+    # ---- gap review: a refusal must be the verifier's answer too; the clock default is substituted when none is given
+    M("no-verifier-refused", SC, UP_N,
+      "        if self._grid_manager_verifier is None:\n            return None\n        return self._grid_manager_verifier()\n" + TAIL_N, "C33.5"),
+    M("verifier-answer-dropped", SC, UP_H,
+      "        if self._grid_manager_verifier is None:\n            return True\n        return None\n" + TAIL_H, "C33.5"),
+    M("verifier-asked-answer-not-returned", SC, UP_N,
+      "        if self._grid_manager_verifier is None:\n            return True\n        permitted = self._grid_manager_verifier()\n" + TAIL_N, "C33.5"),
+    M("no-verifier-refused-by-conjunction", SC, UP_H,
+      "        return self._grid_manager_verifier is not None and self._grid_manager_verifier()\n" + TAIL_H, "C33.5"),
+    M("refusal-on-the-yes-branch", SC, UP_N,
+      "        if self._grid_manager_verifier is None:\n            return True\n        if self._grid_manager_verifier():\n"
+      "            return False\n        return True\n" + TAIL_N, "C33.5"),
+    M("clock-default-test-flipped", GM, "    now_fn = current_datetime_with_zone if now_fn is None else now_fn\n",
+      "    now_fn = current_datetime_with_zone if now_fn is not None else now_fn\n", "C33.3"),
+    M("clock-default-statement-flipped", GM, "    now_fn = current_datetime_with_zone if now_fn is None else now_fn\n",
+      "    if now_fn is not None:\n        now_fn = current_datetime_with_zone\n", "C33.3"),
+    M("clock-default-branches-swapped", GM, "    now_fn = current_datetime_with_zone if now_fn is None else now_fn\n",
+      "    now_fn = now_fn if now_fn is None else current_datetime_with_zone\n", "C33.3"),
+    M("benign-verdict-spelled-out", SC, UP_N,
+      "        if self._grid_manager_verifier is None:\n            return True\n        if self._grid_manager_verifier():\n"
+      "            return True\n        return False\n" + TAIL_N, None),
+    M("benign-refusal-first", SC, UP_H,
+      "        if self._grid_manager_verifier is not None and not self._grid_manager_verifier():\n            return False\n"
+      "        return True\n" + TAIL_H, None),
+    M("benign-verdict-local-tested", SC, UP_H,
+      "        verifier = self._grid_manager_verifier\n        if verifier is None:\n            return True\n"
+      "        permitted = verifier()\n        if not permitted:\n            return False\n        return True\n" + TAIL_H, None),
+    M("benign-refusal-by-falling-off-the-end", SC, UP_N,
+      "        if self._grid_manager_verifier is None:\n            return True\n        if self._grid_manager_verifier():\n"
+      "            return True\n" + TAIL_N, None),
+    M("benign-verdict-conditional-on-answer", SC, UP_N,
+      "        if self._grid_manager_verifier is None:\n            return True\n"
+      "        return True if self._grid_manager_verifier() else False\n" + TAIL_N, None),
+    M("benign-clock-default-statement", GM, "    now_fn = current_datetime_with_zone if now_fn is None else now_fn\n",
+      "    if now_fn is None:\n        now_fn = current_datetime_with_zone\n", None),
+    M("benign-clock-default-or", GM, "    now_fn = current_datetime_with_zone if now_fn is None else now_fn\n",
+      "    now_fn = now_fn or current_datetime_with_zone\n", None),
+    M("benign-clock-default-reordered", GM, "    now_fn = current_datetime_with_zone if now_fn is None else now_fn\n",
+      "    now_fn = now_fn if now_fn is not None else current_datetime_with_zone\n", None),
+    M("benign-verdict-defaulted-then-asked", SC, UP_N,
+      "        permitted = True\n        if self._grid_manager_verifier is not None:\n"
+      "            permitted = self._grid_manager_verifier()\n        return permitted\n" + TAIL_N, None),
+    M("verdict-defaulted-to-refusal", SC, UP_H,
+      "        permitted = False\n        if self._grid_manager_verifier is not None:\n"
+      "            permitted = self._grid_manager_verifier()\n        return permitted\n" + TAIL_H, "C33.5"),
+    M("verdict-defaulted-yes-never-asked", SC, UP_H,
+      "        permitted = True\n        if self._grid_manager_verifier is None:\n"
+      "            permitted = True\n        return permitted\n" + TAIL_H, "C33.5"),
     # ---- vanished anchor
     M("vanish-factory", GM, "def create_grid_manager_verifier(keys, certs, public_key, now_fn=None, bad_cert=None):",
       "def create_grid_manager_verifier2(keys, certs, public_key, now_fn=None, bad_cert=None):", "ANALYSIS-ERROR"),
